@@ -120,7 +120,10 @@ ProjV(v) == IF v.t = "fn" THEN [t |-> "fn"] ELSE IF v.t = "list" THEN List([i \i
 Apply2(f, env) == LET r == ApplyFn(f, ArgVals, env, 0) IN IF IsFn(r) THEN ApplyFn(r, <<Fin(5)>>, env, 0) ELSE r
 Orig == Apply2(Fv, EnvDef)
 Reloaded == Reload(EmitFn(Fv))
-Closed == IsFn(Fv) /\ ClosedAfterCapture(Fv) /\ Fv.name \notin FreeVars(Fv.b, ParamNames(Fv.ps))
+\* self-contained: every free name captured, and no reference to itself by name (a name that is free in the body AND captured
+\* is an ordinary captured value, not a self-reference - the captured value wins at call time)
+Closed == /\ IsFn(Fv) /\ ClosedAfterCapture(Fv)
+          /\ (Fv.name \notin FreeVars(Fv.b, ParamNames(Fv.ps)) \/ (Fv.name \in Names /\ Fv.scope[Fv.name] # UNB))
 
 Portable == Closed => ProjV(Apply2(Reloaded, Fresh)) = ProjV(Orig)
 ReEmitStable == Closed => EmitFn(Reloaded) = EmitFn(Fv)
